@@ -6,28 +6,28 @@ HERE = os.path.dirname(os.path.abspath(__file__))
 TECH = "deterministic simulation with fault injection: seeded search over schedules, fault scripts and workloads (blsim discrete-event simulator; libc clock/entropy seams; a thread scheduler for concurrent callers with preemption at allocations, lock waits, the library's atomic instructions (int3 breakpoints placed from a disassembly of the built binary) and instruction offsets; faults on the caller's side of a call: caller code unwinding through it, a failing sink, a faulty generator), oracle = reference model / ground truth / sequential result, failures minimised to a replay file"
 
 # dimensions every claimed property shares (appended to its level text)
-ROUTES = " In 4 of 10 runs of every class a seed-drawn share of the library calls goes through an alternative public route to the same operation (the scheme traits, BlsSignature constructors, sibling conversions: 40 operations), under the same oracles."
+ROUTES = " In 4 of 10 runs of every class a seed-drawn share of the library calls goes through an alternative public route to the same operation (the scheme traits, BlsSignature constructors, sibling conversions, Clone / clone_from / conditional_select: 40 operations), under the same oracles."
 AFTER = " Before one verifying call in eight the party first makes an aggregate verification in which its OWN code (the iterator feeding the trait-level verifier, or the message type's as_ref()) panics after k entries; it catches the unwind and goes on. After every refused request of a deterministic operation the party (half of the time each) presents the identical request once more and replays its last good request: both must get the answers they got before."
 CONC = " Class conc-*: the calls of this property's own scenario, recorded in a sequential run, are replayed by 2-4 caller threads of one process under the simulator's thread scheduler (a baton; preemption at every heap allocation / deallocation, lock wait, yield, call boundary and atomic read-modify-write instruction inside a library function (uncontended lock acquisitions and releases, reference counts, counters: breakpoints placed from a disassembly of the built binary), and at a drawn instruction offset after one of these by single-stepping; also free-running from a barrier, and calls made from a thread-local destructor during thread teardown); every caller must get the sequential result."
 EXTRA = {
  "C12": " A valid hand-made ciphertext with an unpadded payload goes through share creation and recombination: what the undivided key opens, the committee opens.",
- "C14": " Sums with operands an application assembles itself — the trivial encryption of a public constant (O, k*H), blinders that cancel in a partial sum — in every operator form, both operand orders and both associations.",
- "C03": " Class interop-long-lists: Aggregate, multi-signature and multi-key sums over 2^17+1 (thorough: up to 2^20+1) entries of two signers against a*s1 + b*s2. Three ordinary list sizes (2048..40000, no power-of-two shape) per long-list run.",
+ "C14": " Sums with operands an application assembles itself — the trivial encryption of a public constant (O, k*H), blinders that cancel in a partial sum — in every operator form, both operand orders and both associations. Plaintexts at machine-word boundaries (2^k-1, 2^k, 2^k+small for k = 8..64).",
+ "C03": " Class interop-long-lists: Aggregate, multi-signature and multi-key sums over 2^17+1 (thorough: up to 2^20+1) entries of two signers against a*s1 + b*s2. Three ordinary list sizes (2048..40000, no power-of-two shape) per long-list run. One run in five derives the key from a seed that is text (hex of a digest, 0x-prefixed, base64, decimal digits, a pass phrase).",
  "C04": " Identity keys at positions up to 4095 (thorough 8192, 65536) of long lists; concurrent sessions also replay the list-position class and anchor one session in three on a verification that was refused alone.",
  "C01": " Messages whose content is related to the signer's key material (pk || m, pk, pk with a bit flipped, an earlier signature, the proof of possession) are signed and verified in every run. One time in three the verifier first tries the signature under the other two scheme labels (a label-damaged copy arrives first), then under its own.",
  "C02": " Half of the perturbed tuples reach the verifier in another codec (serde_bare, three serde_json front ends, the harness's own serde format, boxed bytes), forged there by substituting the point bytes, and are verified as decoded in that codec. Class verify-scale: one process verifies the signatures of 2^12+8 (thorough 2^15+8) distinct keys over one message and then offers early keys the signature of the key seen 2^k-1, 2^k, 2^k+1 verifications later. conc-tamper also parks one caller inside an honest verification while another makes 140 / 300 verifications under fresh keys.",
- "C05": " Real aggregates of 2-4 signers in three list shapes (distinct messages, one message, two and two) are relabelled and verified against their own list. Points signed under the sibling suite's tags (the other group assignment's identifiers hashed into this suite's signature group, for the run's message and a 32-byte digest, bare and pk-prefixed) must be refused under every label. Hand-made sign-crypt ciphertexts with an unpadded payload sealed under one scheme's tag are presented under the other labels.",
+ "C05": " Real aggregates of 2-4 signers in three list shapes (distinct messages, one message, two and two) are relabelled and verified against their own list. Points signed under the sibling suite's tags (the other group assignment's identifiers hashed into this suite's signature group, for the run's message and a 32-byte digest, bare and pk-prefixed) must be refused under every label. Hand-made sign-crypt ciphertexts with an unpadded payload sealed under one scheme's tag are presented under the other labels. One-entry aggregates: a proof of possession as a PoP-labelled aggregate over [(pk, pk bytes)], a signature under the other labels.",
  "C06": " Class agg-block-sizes: honest aggregates at every list size n with n or n+1 a multiple of 32..256 up to 1025; class mixed-blocks: lists of up to 4500 signatures made of whole runs of two schemes at memory-block run lengths (2^k / size_of::<Signature>()). Every list size 2..400 of one scheme is accepted; class agg-very-long: honest aggregates of 4097 (thorough 2049, 8193, 16385) entries verify and fail with one message altered. Foreign-label entries carrying the neutral element or the honest entry's own point; non-fused iterators (None, then more entries) at trait level; agg-very-long also at the sizes that fill whole 16/32/64 MiB blocks of prepared pairing terms (855, 856, 1712, 1713, 3425, 3426) and at drawn ordinary sizes.",
  "C07": " Class mixed-blocks: lists of up to 4500 signatures made of whole runs of two schemes at memory-block run lengths. Every list size 2..400 of one scheme is accumulated without refusal. Foreign-label entries carrying the neutral element or the honest entry's own point; a caller's container whose as_ref() alternates between two lists gets the result of one of them.",
- "C08": " Key-share, public-key-share and partial-signature sets in which one identifier carries two different values (two dealings of one key mixed) must be refused. A transient fault of the dealer's generator (its k-th request answered with zero or 0xff bytes, every k): t shares still give the key, t-1 do not.",
+ "C08": " Key-share, public-key-share and partial-signature sets in which one identifier carries two different values (two dealings of one key mixed) must be refused. A transient fault of the dealer's generator (its k-th request answered with zero or 0xff bytes, every k): t shares still give the key, t-1 do not. A generator that panics mid-split (caught by the dealer), then another key dealt on the thread; generator outages of 20 / 64 consecutive zero answers.",
  "C09": " A registry that verifies proofs lazily from inside the iterator handed to aggregate_verify (library calls nested in a library call) must give every proof the verdict it gets on its own. Class registry-scale: 2^12+8 (thorough 2^15+8) registrations in one process, then early keys are offered the proof of the key registered 2^k-1, 2^k, 2^k+1 registrations later.",
  "C10": " Between the protocol steps the prover parks its commitment secret and commitment, and the verifier ships its challenge, in a drawn codec (all byte containers, serde_bare, serde_json front ends, big/little endian, the harness's own serde format). Proofs aged 2^32 / 2^33 / 2^34 ms plus less than the timeout are refused.",
- "C11": " Class sc-roundtrip-huge: payloads of 64 and 128 MiB (thorough: 256 MiB). A message value whose as_ref() shows other bytes on every read is sealed to exactly one of its views (struct and trait level); trait-level opening routes get payload slices that are not 8-byte aligned; thorough payloads also 384 and 512 MiB.",
- "C13": " Class tl-beacon-huge: payloads of 64 and 128 MiB (thorough: 256 MiB). Thorough payloads also 384 and 512 MiB; trait-level unseal gets payload slices that are not 8-byte aligned.",
+ "C11": " Class sc-roundtrip-huge: payloads of 64 and 128 MiB (thorough: 256 MiB). A message value whose as_ref() shows other bytes on every read is sealed to exactly one of its views (struct and trait level); trait-level opening routes get payload slices that are not 8-byte aligned; thorough payloads also 384 and 512 MiB. The -big class also has framed sizes of 0.1, 1, 2, 3, 5, 10 million bytes.",
+ "C13": " Class tl-beacon-huge: payloads of 64 and 128 MiB (thorough: 256 MiB). Thorough payloads also 384 and 512 MiB; trait-level unseal gets payload slices that are not 8-byte aligned. The -big class also has framed sizes of 0.1, 1, 2, 3, 5, 10 million bytes.",
  "C15": " Every type also travels through a third, self-describing serde format owned by the harness in four modes (binary/human-readable, lending or owned buffers, structs as sequences or maps). Two more modes: a lying size_hint and struct fields keyed by index / byte-string names. A third of the vault's writes are preceded by a write of the same value into a sink that fails after k bytes: the next encodings are unchanged.",
- "C16": " The Byzantine encoder also works in the harness's own serde format (point substitution, point-sized runs shortened) and adds the honest point plus a small-order point; the curve-tagged key wrapper is imported at every other length through all its byte importers. Cross-group derivatives: the other group's honest key or signature, decoded by its own type a moment ago, zero-extended / zero-prefixed / doubled / halved to this type's point length, must be refused.",
+ "C16": " The Byzantine encoder also works in the harness's own serde format (point substitution, point-sized runs shortened) and adds the honest point plus a small-order point; the curve-tagged key wrapper is imported at every other length through all its byte importers. Cross-group derivatives: the other group's honest key or signature, decoded by its own type a moment ago, zero-extended / zero-prefixed / doubled / halved to this type's point length, must be refused. The source behind serde_json::from_reader fails or panics mid-document (caught) before the hostile decodes of the same thread.",
  "C17": " Structure-level corruption of documents in the harness's own serde format (one element more / fewer / 300 more, bytes <-> sequence, wrong scalar kind, variant tags, unknown / duplicate / missing keys) into every decoder of every type. Every decoder is also driven through a mode of that format whose SeqAccess announces usize::MAX elements.",
- "C18": " The golden corpus includes the harness's own serde format; ElGamal proofs over an application-chosen generator are exchanged with the reference both ways. The corpus also holds the format's packed mode (struct fields keyed by index and by byte-string names, as position-keyed codecs hand them to a derived Deserialize).",
+ "C18": " The golden corpus includes the harness's own serde format; ElGamal proofs over an application-chosen generator are exchanged with the reference both ways. The corpus also holds the format's packed mode (struct fields keyed by index and by byte-string names, as position-keyed codecs hand them to a derived Deserialize). Time-lock ciphertexts of another implementation whose alpha is big-endian or any 32 bytes: the tree answers what the pinned release answers.",
  "C19": " Class agg-block-sizes: aggregates at batch-boundary list sizes up to 1025 on both back ends. Class agg-very-long: 4097 entries (thorough 2049, 8193, 16385). Also at the sizes that fill whole blocks of prepared pairing terms (855, 856, 1712, 1713, 3425, 3426; thorough 6852, 6853, 5138, 5139).",
  "C20": " Thirteenth entry point: the trait-level seal with a caller-supplied blinder; fourteenth: ProofCommitment::generate over a message value whose as_ref() itself calls generate with the same inputs (outer and nested values compared). Class conc-fresh: all threads of a session make the same randomized call under the simulator's thread scheduler; every 32-byte run of every output must be distinct.",
 }
